@@ -1,6 +1,7 @@
 """Kafka family (pkg/extensions/kafka): generators, the oracle on the implementation, the layout
 comparison (the Python twin of coq/Kafka/KafkaCompat.v), the model/implementation correspondence
 and the Kafka share of the shared properties (c01, c02, c08, c11).  DESIGN.md 4.3, 5.C06."""
+from fam import aggregate as _agg
 import json
 import os
 import time
@@ -19,7 +20,7 @@ def gen(ctx):
     if getattr(ctx, "_kafka_gen", None) is None:
         rc, out = ctx.vh(HARNESS, ["gen", str(ctx.seed), ctx.tier], timeout=300)
         convs = []
-        for l in out.splitlines():
+        for l in out.split("\n"):
             if l.startswith("{"):
                 convs.append(json.loads(l))
         if rc != 0 or not convs:
@@ -47,7 +48,7 @@ def run(ctx, cases, mode="run", timeout=900, limit_kb=None):
             rc, out = vlib.sh(["bash", "-c", cmd], timeout=timeout, env=vlib.env_with_go(), inp=inp.encode(), cwd=ctx.work)
         else:
             rc, out = ctx.vh(HARNESS, [mode], inp=inp, timeout=timeout)
-        lines = [l for l in out.splitlines() if l.startswith("{")]
+        lines = [l for l in out.split("\n") if l.startswith("{")]
         for i, l in enumerate(lines):
             if start + i < len(cases):
                 try:
@@ -70,7 +71,7 @@ def run(ctx, cases, mode="run", timeout=900, limit_kb=None):
 def schemas(ctx):
     if getattr(ctx, "_kafka_schemas", None) is None:
         rc, out = ctx.vh(HARNESS, ["schemas"], timeout=120)
-        rows = [json.loads(l) for l in out.splitlines() if l.startswith("{")]
+        rows = [json.loads(l) for l in out.split("\n") if l.startswith("{")]
         if rc != 0 or not rows:
             ctx.broken.append("kafka: vh-kafka schemas failed: " + out[-300:])
         ctx._kafka_schemas = {(r["api"], r["ver"], r["dir"]): r for r in rows}
@@ -768,6 +769,7 @@ def c11(ctx):
         for s in r.get("stages") or []:
             nitems += 1
             ctx.count_case(("kafka-c11", c["c"], c["s"], nitems), True, "kafka-item-stages")
+            _agg.note_c16(ctx, "kafka", s.get("c16"), {"family": "kafka", "how": "vh-kafka stage", "case": c})
             if not s["ok"]:
                 if nviol < 3:
                     ctx.violation(raw_replay(c, "an emitted kafka item fails in stage %s: %s" % (s.get("where"), s.get("panic")), "vh-kafka stage"))
